@@ -249,6 +249,9 @@ def dump_json_with_numpy(
     def np_encoder(obj):
         if isinstance(obj, np.generic):
             return obj.item()
+        raise TypeError(
+            f"Object of type {obj.__class__.__name__} is not JSON serializable"
+        )
 
     if filename is None:
         return json.dumps(x, default=np_encoder)
